@@ -81,12 +81,15 @@ def model_inputs(ctx, m):
     return out
 
 
-def _margin_goal(kind, extra):
-    """strengthened negation for eq goals: |lhs-rhs| > MARGIN"""
+MARGINS = [fractions.Fraction(1, 1000), fractions.Fraction(1, 10 ** 6), fractions.Fraction(1, 10 ** 9)]
+
+
+def _margin_goals(kind, extra):
+    """strengthened negations for eq goals: |lhs-rhs| > m, largest margin first (so that the
+    counterexample survives the float replay)"""
     if kind in ("eq", "eqtol") and isinstance(extra, core.Sym):
-        a = abs(extra) - MARGIN
-        return core.Sym.of(a).sign_term("gt")
-    return None
+        return [core.Sym.of(abs(extra) - m).sign_term("gt") for m in MARGINS]
+    return []
 
 
 # ---------------------------------------------------------------- one instance
@@ -272,11 +275,11 @@ def _decide_path(ctx, ob, res, seen_cex):
             m = w
         key = (name.split("[")[0], kind)
         cnt = sum(1 for k in seen_cex if k[:2] == key)
-        mg = _margin_goal(kind, extra) if cnt < 4 else None
-        if mg is not None:
+        for mg in (_margin_goals(kind, extra) if cnt < 4 else []):
             r2, s2 = core.check(base + [mg], rlimit=max(core.RLIMIT // 20, 200_000), timeout=3000)
             if r2 == "sat":
                 m = s2.model()
+                break
         entry = {"name": name, "prefix": _pfx(ctx), "kind": kind, "inputs": model_inputs(ctx, m),
                  "detail": (str(extra)[:300] if extra is not None and kind in ("fail", "eqc") else "")}
         # keep at most 4 counterexamples per obligation family
